@@ -36,7 +36,7 @@ ASSUMPTIONS = ['expected function = real dense-time offline monitor on the whole
 REAL = common.REAL_ALL
 STUBS = common.STUBS_ALL
 PROBES = ['sensors_start_at_different_instants', 'cut_at_window_edge', 'empty_batch', 'pastified', 'skewed_schedule', 'one_sample_batches', 'schedules_enumerated_exhaustively',
-          'epoch_time_stamps', 'nano_scale_values']
+          'epoch_time_stamps', 'nano_scale_values', 'one_sensor_1000_samples_ahead']
 INTERLEAVING_MEASURE = 'distinct chunking patterns (per variable: tuple of batch sizes per update)'
 ENVELOPE_RULES = ['memory-past-above-delayed (F08)',
                   'bounded-op-nonzero-start (F14a): offline comparison skipped, schedules still compared']
@@ -65,7 +65,32 @@ def gen(rng, tier):
     raise RuntimeError('generator cannot leave the envelope')
 
 
+def _gen_long_lag(rng, tier):
+    """a fast sensor that is far ahead of a slow one: more than a thousand samples of a arrive before b says anything"""
+    vars_ = ['a', 'b']
+    na = rng.randint(1050, 1300)
+    sa = [[i / 4.0, float(rng.randint(-4, 4))] for i in range(na)]
+    nb = rng.randint(2, 5)
+    sb = [[round(i * (na - 1) / (nb - 1)) / 4.0 if nb > 1 else 0.0, float(rng.randint(-4, 4))] for i in range(nb)]
+    pa = ['pred', rng.choice(['>=', '<=']), ['var', 'a'], ['const', rng.choice(sg.LATTICE)]]
+    pb = ['pred', rng.choice(['>=', '<=']), ['var', 'b'], ['const', rng.choice(sg.LATTICE)]]
+    if rng.random() < 0.5:
+        pa, pb = pb, pa
+    ast = [rng.choice(['and', 'or', 'implies', 'and']), pa, pb]
+    if rng.random() < 0.4:
+        ast = [rng.choice(['historically_b', 'once_b']), 0, rng.randint(1, 4), ast]
+    k = rng.randint(3, 12)
+    cuts = sorted(set(rng.randrange(1, na) for _ in range(k)))
+    streamed = [dict(a=sa[i:j], b=[]) for i, j in zip([0] + cuts, cuts + [na])]
+    rounds = {'lagging': [dict(a=sa, b=[]), dict(a=[], b=sb)],
+              'lagging_streamed': streamed + [dict(a=[], b=sb[:1]), dict(a=[], b=sb[1:])]}
+    return {'vars': vars_, 'ast': ast, 'text': common.dense_text(ast), 'signals': {'a': sa, 'b': sb}, 'pastify': False, 'skew': [],
+            'sync_picks': [], 'tier': tier, 'long_lag': rounds}
+
+
 def _gen(rng, tier):
+    if rng.random() < 0.004:
+        return _gen_long_lag(rng, tier)
     big = tier == 'thorough'
     nv = rng.randint(1, 4 if big else 3)
     vars_ = common.VARS[:nv]
@@ -134,6 +159,8 @@ def skew_schedule(signals, vars_, sizes):
 def schedules(sc):
     """explicit, deterministic list of (name, rounds) from the scenario"""
     signals, vars_ = sc['signals'], sc['vars']
+    if sc.get('long_lag') and not sc.get('only_rounds'):
+        return [('all_at_once', sync_schedule(signals, vars_, []))] + [(k, sc['long_lag'][k]) for k in sorted(sc['long_lag'])], False
     if sc.get('only_rounds'):
         # a minimised replay: the failing schedule next to the reference schedule
         return [('all_at_once', sync_schedule(signals, vars_, [])), ('pinned', sc['only_rounds'])], False
@@ -212,6 +239,8 @@ def run(sc):
         r.probes['schedules_enumerated_exhaustively'] += 1
     if sc.get('pastify'):
         r.probes['pastified'] += 1
+    if sc.get('long_lag'):
+        r.probes['one_sensor_1000_samples_ahead'] += 1
     if any(0 < abs(x) < 1e-8 for v in sc['signals'] for _, x in sc['signals'][v]):
         r.probes['nano_scale_values'] += 1
     if any(sc['signals'][v][0][0] > 1e9 for v in sc['signals']):
